@@ -563,6 +563,14 @@ def runs(draw, max_iter):
     dmin = draw(st.one_of(st.just(min(0.1, fmax * pos_scale)), st.just(0.0), G.floats(0.1, 1.0).map(lambda f: f * fmax * pos_scale),
                           G.floats(0.5, 1.0).map(lambda f: f * fmax * pos_scale)))
     dmin = min(dmin, 0.4 * dmax)
+    if dmode == 0 and dist_cb == "default" and flat and draw(st.integers(0, 19)) == 0:
+        # a NARROW connection window: only ~1-2 samples in a thousand are within range of the tree, so single
+        # iterations reject a thousand and more draws in a row before one is accepted (the budget is kept small so
+        # the run still takes about a second).  Whatever the library does about long rejection streaks, every node it
+        # finally attaches must still satisfy the window and the collision clause.
+        dmax = draw(G.floats(0.11, 0.16)) * b
+        dmin = 0.0
+        iterations = draw(st.integers(3, 8))
     knn = draw(st.one_of(st.integers(2, 20), st.integers(5, 20), st.integers(1, 20), st.sampled_from([1, 2, 15, 20])))
     return {"seed": seed, "start": [float(v) for v in start + srot], "goal": [float(v) for v in goal + grot],
             "bounds": [[float(a), float(bb)] for a, bb in bounds], "boxes": [[[float(v) for v in lo], [float(v) for v in hi]]
